@@ -66,6 +66,7 @@ where
     let n = prog.threads.len();
     sched::begin_execution(n + 1, strat, atomics);
     sched::with(|g| {
+        g.step_limit = if prog.step_limit > 0 { prog.step_limit } else { 60_000 };
         g.stale.clear();
         for (k, v) in stale {
             g.stale.insert(*k, *v);
